@@ -43,6 +43,9 @@ def shipped_rewirings(ctx, rng, n):
                     if af in it:
                         targets.append("%s:{%s}" % (kind, it[af]))
             targets.append("%s:98765" % kind)
+            # qualified by a schema that is not loaded (no such file / a file nobody imports)
+            targets.append("schema:{no_such_import}.%s:0" % kind)
+            targets.append("schema:{test/small_example_schema}.%s:0" % kind)
         for p, sv in strings(base):
             m = refpat.match(sv)
             if m and not m.group(1):
@@ -59,6 +62,24 @@ def shipped_rewirings(ctx, rng, n):
     return docs
 
 
+def comparison_grid(ctx):
+    """every comparison (left, operator, right) over literals of the 9 JSON shapes and the attribute routes of C04
+    (direct / edge / collection x 8 types, bare promise, undeclared path), literal or route on either side; and every
+    single reference of the shipped schemas qualified by a schema that is not loaded"""
+    import checks.c04 as c04
+    R = c04.routes()
+    lits = [("lit:" + sh, None) for sh in c04.LIT_SHAPES]
+    short = [r for r in R if r[0].startswith("direct:") or r[0] in ("bare", "undeclared")]
+    cells = [(l, o, r) for l in lits for o in S.OPS for r in short + lits] + [(l, o, r) for l in short for o in S.OPS for r in lits]
+    if ctx.tier != "quick":
+        cells += [(l, o, r) for l in R for o in S.OPS for r in R]
+    out = []
+    for (l, o, r) in cells:
+        s = c04.cell_scenario(l, o, r)
+        out.append(({"comparison": "%s %s %s" % (l[0], o, r[0])}, S.render(s, random.Random(1), spelling="id")))
+    return out
+
+
 def run(ctx):
     ok, thms, log = kernel.proof_step(ctx, regen=("tables",))
     rng = random.Random(ctx.seed)
@@ -73,6 +94,7 @@ def run(ctx):
         items.append(engine.Item(s, doc, "rewired", mutator="; ".join(how)[:120], owner="C12", desc="rewired", render=r, group=engine.scen_hash(s)))
     evaluated = engine.run_items(ctx, items)
     ship = shipped_rewirings(ctx, rng, 600 if quick else 6000)
+    ship += comparison_grid(ctx)
     pool = impl.Pool(ctx)
     ship_res = pool.validate_many([d for _, d in ship])
     pool.close()
@@ -93,7 +115,7 @@ def run(ctx):
     cov = ctx.coverage
     cov.update({
         "evaluations": len(items) + len(ship), "distinct_nontrivial": len(set(it.group for it in items)) + len(set(json.dumps(m, sort_keys=True) for m, _ in ship)),
-        "rule": "conformant scenarios (two thirds with thread groups) scrambled by 1-8 rewirings: any reference retargeted to any existing or missing entity of any kind, id / name collisions, attribute retyping, gate / operator / literal / operand rewrites, arbitrary (also cyclic) checkpoint nesting, arbitrary (also cyclic) thread-group contexts and spawn sources, operations rewritten; plus single-reference rewirings of every shipped schema (JSON level, both spellings, missing targets); every case keeps the JSON shapes the specification requires; distinct by scenario / by (file, position, target)",
+        "rule": "conformant scenarios (two thirds with thread groups) scrambled by 1-8 rewirings: any reference retargeted to any existing or missing entity of any kind, id / name collisions, attribute retyping, gate / operator / literal / operand rewrites, arbitrary (also cyclic) checkpoint nesting, arbitrary (also cyclic) thread-group contexts and spawn sources, operations rewritten; plus single-reference rewirings of every shipped schema (JSON level, both spellings, missing targets, targets qualified by a schema that is not loaded) and the grid of all comparisons over 9 literal shapes and the attribute routes with literals on either side; every case keeps the JSON shapes the specification requires; distinct by scenario / by (file, position, target)",
         "samples": engine.sample_of(items[:2]) + [ship[0][0]] if ship else engine.sample_of(items[:2]),
         "disagreements_checked": len(raised),
         "outcomes": dict(collections.Counter(it.res["outcome"] for it in items)), "shipped_outcomes": dict(collections.Counter(r["outcome"] for r in ship_res)),
